@@ -533,7 +533,7 @@ def run(ctx):
     # ---- model evaluation and exact comparison
     if ok:
         pre = 'Require Import MPyC.Buffers.\nLocal Open Scope Z_scope.\n'
-        res = ctx.coq_eval(['MPyC.Frame'], exprs, preamble=pre, chunk=ctx.n(120, 150), jobs=14)
+        res = ctx.coq_eval(['MPyC.Frame'], exprs, preamble=pre, chunk=max(100, -(-len(exprs) // 12)), jobs=12)   # coqc start-up dominates: few big files
         mism = 0
         for r, (kind, key, obs, allow_dup) in zip(res, meta):
             d = compare(obs, r, allow_error=allow_dup)
@@ -542,7 +542,7 @@ def run(ctx):
                 if len(ctx.broken) < 20:
                     d.update({'kind': 'correspondence', 'stream': kind, 'case': key})
                     ctx.broken.append(d)
-        cres = ctx.coq_eval(['MPyC.Frame'], cexprs, preamble='Local Open Scope Z_scope.\n', chunk=60)
+        cres = ctx.coq_eval(['MPyC.Frame'], cexprs, preamble='Local Open Scope Z_scope.\n', chunk=500)
         for r, (pc, p) in zip(cres, codec):
             want = (list(enc_ref(pc, p)), ('Some', (list(enc_ref(pc, b'')[:8]), list(p), [7, 7])))
             if r != want:
